@@ -377,7 +377,7 @@ def write_evidence(ctx):
         "wall_s": round(time.time() - ctx.t0, 2),
         "violations": len(ctx.violations),
     }
-    path = os.path.join(VERIF_DIR, "evidence", "%s.json" % ctx.prop_id)
+    path = os.path.join(os.environ.get("VERIF_EVIDENCE_DIR") or os.path.join(VERIF_DIR, "evidence"), "%s.json" % ctx.prop_id)
     os.makedirs(os.path.dirname(path), exist_ok=True)
     try:
         import jsonschema
@@ -404,7 +404,7 @@ def finish(ctx):
     code = 0
     replay = None
     if ctx.violations:
-        rdir = os.path.join(VERIF_DIR, "replays")
+        rdir = os.environ.get("VERIF_REPLAY_DIR") or os.path.join(VERIF_DIR, "replays")
         os.makedirs(rdir, exist_ok=True)
         replay = os.path.join(rdir, "%s_%s_seed%d.json" % (ctx.prop_id, ctx.tier, ctx.seed))
         with open(replay, "w") as fh:
